@@ -13,7 +13,8 @@
   REGOWNER   find_or_build is the only function that references the type registry (already_built_types)
   HASHFN     hash_type_id feeds its hasher from the TypeId only and writes finish() of that hasher into the name
   GEN-*      see c20gen.py (expansion of the derive macro over /verif/corpus)
-  SHAPES     ... Option<T> splices the branches of a union-typed T in instead of nesting unions   (found F25)
+  SHAPES     ... Option<T> splices the branches of a union-typed T in instead of nesting unions (found F25), dropping
+             the null branch by KEY, never by looking at possibly unfinished nodes (F42)
   shared     NEWTYPE (c03: F17), NAMEPAIR incl. the unit variant Null (c01: F24), NAMESPACE (c09), canonical-form and JSON
              guards (c19: F16)
 It does NOT decide what the proc-macro generates for user types outside the corpus' shapes, nor any value-level claim.
